@@ -12,10 +12,15 @@ ids probed by the per-key readers.  Fields of an op are separated by `:`.
            | `S` (list snapshot of the receiver's own pairs) | `D` (the receiver's own todict())
   addlistx:k:values  updx:pairs  extx:pairs  newx   the argument iterable yields these items and then
            raises (`XBoom`): materialised first / taken over pair by pair / no object constructed
+  updmx:pairs   a mapping argument of `update` that raises after delivering these items (`XBoom`)
+  rej           a call that raises on its first look at its argument (`XReject`): nothing changes
+  fk:keys:v     `s = cls.fromkeys(keys, v)`
   new:E:F  add:k:v  addlist:k:values  set:k:v  del:k  upd:E:F  ext:E:F  sd:k:v
   pop:k:d  popall:k:d  poplast:k|-:d  (d = 0|1: default given)  popitem  clear
   cpt (t = copy of s)  cps (s = copy of s)  swap
-  eq:E  (E may also be `x`: an object that is not a mapping)         -> `B<eq><ne>`
+  eq:E  (E may also be `x`: an object that is not a mapping)         -> `B<eq><ne><eq><ne>` (the second pair is the
+           reflected comparison `other == s` / `other != s`: `type(s)` is a subclass of dict that overrides
+           `__eq__` / `__ne__`, so Python asks `s` first - the same two calls)
   sorted:fn:rev  (fn = n|k|v|c)   sv:fn:rev  (fn = n|m|g|c)           -> `O<pairs>`
 `todict()` / `todict(multi=True)` are dicts: printed sorted by key id on both sides.
 Output: one `;`-separated record per op: `<ret> <dump of every reader of s> T<pairs of t>`.
@@ -68,6 +73,12 @@ def dump (nk : Nat) (st3 : HState3 Nat Nat) : String :=
     s!"C{",".intercalate (ks.map fun k => if s.contains k then "1" else "0")}",
     s!"CN{showE showPairs s.counts}",
     s!"IV{showPairs inv.itemsM}", s!"IK{showNats inv.keys}", s!"IL{inv.len}",
+    s!"VK{showNats s.viewKeysIter}", s!"VL{s.viewLen}", s!"VV{showE (showNats ·) s.viewValuesIter}",
+    s!"VI{showE showPairs s.viewItemsIter}",
+    s!"VC{"".intercalate (ks.map fun k => if s.viewKeysContains k then "1" else "0")}",
+    s!"VIC{"".intercalate (ks.map fun k => "".intercalate ((List.range 5).map fun v =>
+        showE (fun b => if b then "1" else "0") (s.viewItemsContains k v)))}",
+    s!"VVC{"".intercalate ((List.range 5).map fun v => showE (fun b => if b then "1" else "0") (s.viewValuesContains v))}",
     s!"T{showPairs st.t.itemsM}"]
 
 def parsePairs? (s : String) : Option (List (Nat × Nat)) :=
@@ -123,6 +134,12 @@ def parseOp? (st : HState Nat Nat) (tok : String) : Option (HOp Nat Nat) :=
   | ["addlistx", k, vs] => do pure (.addlistAbort (← k.toNat?) (← natList? vs))
   | ["updx", l] => do pure (.updateAbort (← parsePairs? l))
   | ["extx", l] => do pure (.updateExtendAbort (← parsePairs? l))
+  | ["updmx", l] => do pure (.updateMapAbort (← parsePairs? l))
+  | ["rej"] => some .rejected
+  | ["fk", ks, v] => do
+      let ks ← natList? ks
+      let v ← v.toNat?
+      pure (.new (some (.pairs (OMD.fromkeys ks v : OMD Nat Nat).itemsM)) [])
   | ["add", k, v] => do pure (.add (← k.toNat?) (← v.toNat?))
   | ["addlist", k, vs] => do pure (.addlist (← k.toNat?) (← natList? vs))
   | ["set", k, v] => do pure (.setitem (← k.toNat?) (← v.toNat?))
@@ -142,12 +159,12 @@ def parseOp? (st : HState Nat Nat) (tok : String) : Option (HOp Nat Nat) :=
   | ["swap"] => some .swap
   | _ => none
 
-def showB (b : Bool) : String := if b then "B10" else "B01"
+def showB (b : Bool) : String := if b then "B1010" else "B0101"
 
 /-- `==` and `!=`, each computed by its own model function -/
 def showEN (e n : Except Err Bool) : String :=
   match e, n with
-  | .ok e, .ok n => s!"B{if e then 1 else 0}{if n then 1 else 0}"
+  | .ok e, .ok n => s!"B{if e then 1 else 0}{if n then 1 else 0}{if e then 1 else 0}{if n then 1 else 0}"
   | .error x, _ => showErr x
   | _, .error x => showErr x
 
@@ -179,7 +196,7 @@ def stepTok (nk : Nat) (st : HState3 Nat Nat) (tok : String) : Option (HState3 N
   match parseOp? st.abs tok with
   | some op =>
     let r := hstep3 st op
-    some (r.1, s!"{showOut r.2} {dump nk r.1}")
+    some (r.1, s!"{if tok = "rej" then "XReject" else showOut r.2} {dump nk r.1}")
   | none => match query? st.abs tok with
     | some out => some (st, s!"{out} {dump nk st}")
     | none => none
